@@ -299,7 +299,69 @@ func scenarios() []*sched.Config {
 			}
 		}
 	}
+	// overlap where one read replica holds a truncated copy (its stat and enumerate report a smaller size)
+	for truncMask := 1; truncMask < 8; truncMask++ {
+		if truncMask == 7 {
+			continue // at least one replica holds the intact blob
+		}
+		out = append(out, truncScenario(truncMask))
+	}
 	return out
+}
+
+// truncScenario: all three read replicas hold blob a, the ones in truncMask hold a
+// copy that lost its last byte. However the sizes disagree, stat and enumerate must
+// report a exactly once.
+func truncScenario(truncMask int) *sched.Config {
+	name := fmt.Sprintf("read-truncated-copy/trunc=%03b", truncMask)
+	a := hs.BB
+	return &sched.Config{Name: name, Bound: 2, SigPrefix: "C12|read-truncated-copy",
+		Body: func(x *sched.X) {
+			env := bk.NewEnv()
+			defer env.Close()
+			const n = 3
+			var prefixes []any
+			for i := 0; i < n; i++ {
+				p := fmt.Sprintf("/r%d/", i)
+				r := &rep{Mem: hs.NewMem(p), idx: i}
+				if truncMask&(1<<i) != 0 {
+					r.Mem.PutRaw(a.Ref, a.Data[:len(a.Data)-1])
+				} else {
+					r.Mem.Put(a)
+				}
+				env.Ld.Set(p, r)
+				prefixes = append(prefixes, p)
+			}
+			sto, err := env.Create("replica", map[string]any{"backends": prefixes})
+			if err != nil {
+				panic(err)
+			}
+			var statGot []string
+			var statErr, enumErr error
+			var enumGot []blob.SizedRef
+			x.Go("reader", func() {
+				statErr = sto.StatBlobs(ctx, []blob.Ref{a.Ref}, func(sb blob.SizedRef) error {
+					statGot = append(statGot, sb.String())
+					return nil
+				})
+				enumGot, enumErr = hs.Enumerate(ctx, sto, "", 10)
+			})
+			x.Run()
+			if x.Deadlock {
+				x.Fail("read-hangs", "reader did not finish")
+				return
+			}
+			if statErr != nil {
+				x.Fail("stat-error", fmt.Sprintf("StatBlobs failed: %v", statErr))
+			} else if len(statGot) != 1 {
+				x.Fail("stat-not-exactly-once", fmt.Sprintf("StatBlobs reported %v for one blob held by three replicas (truncated copies on %03b)", statGot, truncMask))
+			}
+			if enumErr != nil {
+				x.Fail("enumerate-error", fmt.Sprintf("EnumerateBlobs failed: %v", enumErr))
+			} else if len(enumGot) != 1 {
+				x.Fail("enumerate-not-exactly-once", fmt.Sprintf("EnumerateBlobs reported %v for one blob held by three replicas (truncated copies on %03b)", enumGot, truncMask))
+			}
+		}}
 }
 
 func TestCheck(t *testing.T) {
